@@ -229,7 +229,7 @@ def gen_zone_names(rng):
     elif q < 0.12:
         hp += rng.randint(1, 3)
     elif q < 0.15:
-        hp = max(0, hp - count)                   # what the (short) size() would announce
+        hp = max(0, hp - count)                   # one byte per zone short (the length the pre-repair size() announced)
     return _damage(rng, p), [hp]
 
 
